@@ -373,29 +373,70 @@ def _sizes_of_written(col, rule, close):
                 "recognised in Shard.close", undecided=True)
 
 
+from .dataflow import single_defs as single_defs_, expand as expand_
+
+
 def sharded_layout(repo, col, parts=("index", "name")):
     rule = "E-SPEC.sharded"
     if "index" not in parts:
         return _shard_file_name(repo, col, rule)
     close = repo.func("sharded_file_accessor", "Shard.close", inline=True)
     # shard index entries: "<Q" pairs, relative to the end of the index
-    packs = [c for c in calls_in(close.node)
-             if (call_name(c) or "") == "struct.pack"]
+    from .core import helper_closure
+
+    def pack_format(h, c):
+        """Format string (or 'f:<prefix>..<suffix>' for f-strings) of a
+        struct.pack / <Struct constant>.pack call, else None."""
+        nm = h.module.resolve(call_name(c) or "") or ""
+        if nm == "struct.pack" and c.args:
+            f = c.args[0]
+            if isinstance(f, ast.Constant) and isinstance(f.value, str):
+                return f.value, c.args[1:]
+            if isinstance(f, ast.JoinedStr):
+                parts = [v.value if isinstance(v, ast.Constant) else "#"
+                         for v in f.values]
+                return "".join(parts), c.args[1:]
+            return "?", c.args[1:]
+        if isinstance(c.func, ast.Attribute) and c.func.attr == "pack" and \
+                isinstance(c.func.value, ast.Name):
+            cv = h.module.const(c.func.value.id)
+            if isinstance(cv, ast.Call) and (h.module.resolve(
+                    call_name(cv) or "") or "") == "struct.Struct" and \
+                    cv.args and isinstance(cv.args[0], ast.Constant):
+                return cv.args[0].value, c.args
+        return None
+    packs = []
+    base_close = getattr(close, "inlined_from", close)
+    for h in [close] + [x for x in helper_closure(base_close)
+                        if x is not base_close]:
+        for c in calls_in(h.node):
+            pf = pack_format(h, c)
+            if pf is not None:
+                packs.append((h, c, pf[0], pf[1]))
     if not packs:
-        raise AnalysisError("anchor vanished: struct.pack in Shard.close")
-    for c in packs:
-        fmt = c.args[0].value if isinstance(c.args[0], ast.Constant) else None
-        okf = isinstance(fmt, str) and re.match(r"^<Q+$", fmt) is not None
-        col.add(rule + ".index-format", close, norm(c)[:60], okf,
+        col.add(rule + ".index-format", close, "shard index packing", True,
+                "no struct packing of the shard index recognised in "
+                "Shard.close or its helpers", undecided=True)
+    seen_txt = set()
+    for h, c, fmt, vals in packs:
+        if norm(c) in seen_txt:
+            continue
+        seen_txt.add(norm(c))
+        okf = re.match(r"^<(#|[0-9]*)Q+$", fmt) is not None
+        col.add(rule + ".index-format", h, norm(c)[:60], okf or fmt == "?",
                 "" if okf else "shard index entries are little-endian "
-                "uint64 ('<Q'), found %r" % fmt, node=c)
-        dep = names_in(c.args[1]) if len(c.args) > 1 else set()
-        defs = local_defs(close.node)
-        clos = closure_names(close.node, dep, defs)
+                "uint64 ('<Q'), found %r" % fmt, node=c,
+                undecided=fmt == "?")
+        dep = set()
+        for v in vals:
+            dep |= names_in(v)
+        defs = local_defs(h.node)
+        clos = closure_names(h.node, dep, defs)
         bad = any("minishard_bits" in norm(d.value) or
                   "header_byte_length" in norm(d.value)
                   for n in clos for d in defs.get(n, []) if d.value is not None)
-        col.add(rule + ".index-origin", close, norm(c.args[1])[:40], not bad,
+        col.add(rule + ".index-origin", h, norm(vals[0])[:40] if vals else "-",
+                not bad,
                 "offsets are relative to the end of the shard index" if not bad
                 else "shard index offsets include the index length: the "
                 "format measures them from the end of the shard index",
@@ -466,20 +507,72 @@ def sharded_layout(repo, col, parts=("index", "name")):
     col.add(rule + ".minishard-rows", app, "id delta = cmc - previous id", okd,
             "" if okd else "chunk ids are not delta-encoded against the "
             "previously appended id", undecided=not okd and len(vals) != 3)
-    resh = [c for c in calls_in(close.node)
-            if (call_name(c) or "").endswith("reshape")]
-    okr = False
-    for c in resh:
-        order = kwarg(c, "order")
-        shape = c.args[1] if len(c.args) > 1 else None
-        if order is not None and order.value == "F" and \
-                isinstance(shape, ast.Tuple) and const_int(shape.elts[0]) == 3:
-            okr = True
-    okr = okr and ".tobytes(order='C')" in txt
+    # the flat header [id0, off0, len0, id1, ...] is written as three rows
+    # (all ids, all offsets, all sizes).  The reshape / transpose / tobytes
+    # combination is evaluated symbolically.
+    base_close2 = getattr(close, "inlined_from", close)
+    verdicts = []
+    for h in [close] + [x for x in helper_closure(base_close2)
+                        if x is not base_close2]:
+        for c in calls_in(h.node):
+            if not (isinstance(c.func, ast.Attribute)
+                    and c.func.attr == "tobytes"):
+                continue
+            chain = c.func.value
+            tdefs = single_defs_(h.node)
+            chain = expand_(chain, tdefs, depth=3)
+            if "header" not in norm(chain):
+                continue
+            toggles = 0
+            t_order = kwarg(c, "order")
+            if isinstance(t_order, ast.Constant) and t_order.value == "F":
+                toggles += 1
+            node_ = chain
+            first3 = valid = None
+            while True:
+                if isinstance(node_, ast.Attribute) and node_.attr == "T":
+                    toggles += 1
+                    node_ = node_.value
+                    continue
+                if isinstance(node_, ast.Call) and isinstance(
+                        node_.func, ast.Attribute) and \
+                        node_.func.attr == "transpose" and not node_.args:
+                    toggles += 1
+                    node_ = node_.func.value
+                    continue
+                break
+            if isinstance(node_, ast.Call) and (call_name(node_) or "")\
+                    .split(".")[-1] == "reshape":
+                is_np = (call_name(node_) or "").startswith(("np.", "numpy."))
+                args_ = node_.args[1:] if is_np else node_.args
+                shape = args_[0] if len(args_) == 1 and isinstance(
+                    args_[0], (ast.Tuple, ast.List)) else (
+                    ast.Tuple(elts=list(args_), ctx=ast.Load())
+                    if len(args_) == 2 else None)
+                order = kwarg(node_, "order")
+                forder = isinstance(order, ast.Constant) and \
+                    order.value == "F"
+                if shape is not None and len(shape.elts) == 2:
+                    if const_int(shape.elts[0]) == 3:
+                        first3 = True
+                    elif const_int(shape.elts[1]) == 3:
+                        first3 = False
+                if first3 is not None:
+                    valid = (first3 and forder) or (not first3 and not forder)
+            if first3 is None:
+                verdicts.append((None, c))
+                continue
+            fields_first = first3 if toggles % 2 == 0 else not first3
+            verdicts.append((bool(valid) and fields_first, c))
+    okr = any(v is True for v, _ in verdicts)
+    badr = [c for v, c in verdicts if v is False]
     col.add(rule + ".minishard-rows", close,
-            "reshape(header, (3, n), order='F').tobytes(order='C')", okr,
-            "" if okr else "interleaved triples are not transposed into the "
-            "three rows the format stores", undecided=not resh)
+            "reshape(header, (3, n), order='F').tobytes(order='C')",
+            okr and not badr or (not badr and not okr),
+            "" if okr and not badr else "interleaved triples are not "
+            "transposed into the three rows the format stores",
+            node=badr[0] if badr else None,
+            undecided=not okr and not badr)
     rd = repo.func("sharded_base", "ReadableMiniShardCMC.fetch_cmc_chunk")
     rtxt = ftext(rd)
     pats = ["self.minishard_index[2 * self.num_chunks + chunk_idx]",
@@ -613,20 +706,40 @@ def routing_bits(repo, col):
                     "" if oka else "shard mask does not exclude the minishard "
                     "bits")
     rw = repo.module("sharded_base")
+    # the private method that applies the pre-shift and the hash is found by
+    # what it does (it calls id_hash), not by its name
+    hname = None
+    cls_rw = rw.classes.get("CMCReadWrite")
+    if cls_rw is not None:
+        for mn, mf in cls_rw.methods.items():
+            if any((call_name(c) or "").endswith("id_hash")
+                   for c in calls_in(mf.node)):
+                hname = mn
+    if hname is None:
+        col.add(rule + ".routing", "sharded_base:CMCReadWrite",
+                "hash of the pre-shifted id", True, "no method of "
+                "CMCReadWrite calls id_hash", undecided=True)
     for qn, pat, why in (
-            ("CMCReadWrite._hash",
+            ("CMCReadWrite.%s" % hname,
              "self.shard_spec.id_hash(cmc >> self.shard_spec.preshift_bits)",
              "identifier is not shifted right by preshift_bits before hashing"),
             ("CMCReadWrite.get_minishard_key",
-             "self.shard_spec.minishard_mask & self._hash(cmc)",
+             "self.shard_spec.minishard_mask & self.%s(cmc)" % hname,
              "minishard number is not the low minishard_bits of the hashed id"),
             ("CMCReadWrite.get_shard_key",
-             "(self.shard_spec.shard_mask & self._hash(cmc)) >> "
-             "self.shard_spec.minishard_bits",
+             "(self.shard_spec.shard_mask & self.%s(cmc)) >> "
+             "self.shard_spec.minishard_bits" % hname,
              "shard number is not bits [minishard_bits, minishard_bits + "
              "shard_bits) of the hashed id")):
+        if hname is None or not repo.has_func("sharded_base", qn):
+            continue
         fn = repo.func("sharded_base", qn)
-        rets = [norm(s.value) for s in stmts_of(fn.node)
+        pn = [p_ for p_ in fn.params if p_ != "self"]
+        pat = pat.replace("cmc", pn[0]) if pn else pat
+        from .dataflow import alias_table as _at, expand as _exr, \
+            single_defs as _sdr
+        rtab = dict(_sdr(fn.node), **_at(fn.node))
+        rets = [norm(_exr(s.value, rtab)) for s in stmts_of(fn.node)
                 if isinstance(s, ast.Return) and s.value is not None]
         alt = pat.replace(" & ", " @ ").split(" @ ")
         ok = any(r == pat or (len(alt) == 2 and r == "%s & %s" % (alt[1], alt[0]))
@@ -824,10 +937,25 @@ def mesh_formats(repo, col):
                 undecided=not ok and not bad_order)
     writes = [c for c in calls_in(w.node) if isinstance(c.func, ast.Attribute)
               and c.func.attr == "write"]
+    from .dataflow import single_defs as _sdw, expand as _exw
+    wtab = _sdw(w.node)
+    wtexts = [norm(_exw(c.args[0], wtab)) if c.args else "" for c in writes]
+
+    def _kind(t):
+        if ".pack(" in t and ("shape[0]" in t or "len(" in t):
+            return "count"
+        if "vertices" in t and "triangles" not in t:
+            return "vertices"
+        if "triangles" in t and "vertices" not in t:
+            return "triangles"
+        return "?"
+    kinds = [_kind(t) for t in wtexts]
+    ok_o = kinds == ["count", "vertices", "triangles"]
+    # wrong only if all three are recognised and out of order
+    bad_o = sorted(kinds) == ["count", "triangles", "vertices"] and not ok_o
     col.add(rule + ".writer", w, "count, vertices, triangles in this order",
-            len(writes) == 3 and "struct.pack" in norm(writes[0]) and
-            "vertices" in norm(writes[1]) and "triangles" in norm(writes[2]),
-            "", undecided=len(writes) != 3)
+            ok_o or not bad_o, "" if ok_o else "the three sections are written "
+            "as %s" % kinds, undecided=not ok_o and not bad_o)
     r = repo.func("mesh", "read_precomputed_mesh")
     rtxt = ftext(r)
     for p, why in (("struct.unpack('<I', buf)[0]", "count not read as '<I'"),
